@@ -326,3 +326,104 @@ MUTANTS += [
 				conn.cfg.Proxy, err)""", """			logging.Info("irc.Connect(): Connecting via proxy %q: %v (config %+v)",
 				conn.cfg.Proxy, err, *conn.cfg)"""),
 ]
+
+def R(id, props, shas, expect="detect", note=""):
+    return {"id": id, "props": props, "edits": [], "revert": shas, "expect": expect, "note": note}
+
+MUTANTS += [
+    # ---- reverting each repair made in /repo (the check must report the original defect again)
+    R("fix-revert-D1-parse-empty", ["C02"], ["239e0ee"]),
+    R("fix-revert-D2-ctcp-args1", ["C02", "C01"], ["6588851"]),
+    R("fix-revert-D3-userhost", ["C02"], ["8c3913c"]),
+    R("fix-revert-D4-public-empty", ["C02"], ["f849333"]),
+    R("fix-revert-D5-tag-backslash", ["C01"], ["0839b32"]),
+    R("fix-revert-D6-connect-while-connected", ["C06"], ["578f8fb"]),
+    R("fix-revert-D11-connected-lock", ["C07", "C06"], ["4cadd14"]),
+    R("fix-revert-D9-me-nil", ["C07"], ["b46c41e"]),
+    R("fix-revert-D12-cancel-watcher", ["C07"], ["284a71a"]),
+    # ---- C06
+    M("c06-close-checks-connected-unlocked", ["C06"], CONN, """	conn.mu.Lock()
+	if !conn.connected || gen != conn.generation {
+		conn.mu.Unlock()
+		return nil
+	}""", """	if !conn.connected || gen != conn.generation {
+		return nil
+	}
+	conn.mu.Lock()""", note="two coinciding closers both pass the test: DISCONNECTED twice"),
+    M("c06-connected-false-after-wait", ["C06"], CONN, """	conn.setConnected(false)
+	err := conn.sock.Close()""", """	err := conn.sock.Close()
+	defer conn.setConnected(false)""", note="Connected() still true inside DISCONNECTED handlers"),
+    M("c06-send-no-close-on-write-error", ["C06"], CONN, """				logging.Error("irc.send(): %s", err.Error())
+				// We can't defer this, because Close() waits for it.
+				conn.wg.Done()
+				conn.close(gen)
+				return""", """				logging.Error("irc.send(): %s", err.Error())
+				// We can't defer this, because Close() waits for it.
+				conn.wg.Done()
+				return"""),
+    M("c06-register-also-on-error", ["C06"], CONN, """	err := conn.internalConnect(ctx)
+	if err == nil {
+		conn.dispatch(&Line{Cmd: REGISTER, Time: time.Now()})
+	}""", """	err := conn.internalConnect(ctx)
+	if err == nil || !conn.Connected() && conn.cfg.Server != "" {
+		conn.dispatch(&Line{Cmd: REGISTER, Time: time.Now()})
+	}"""),
+    M("c06-connected-true-before-dial", ["C06"], CONN, """	// Only reset per-connection state once we know there is no live
+	// connection whose goroutines are still using it.
+	conn.initialise()
+""", """	// Only reset per-connection state once we know there is no live
+	// connection whose goroutines are still using it.
+	conn.initialise()
+	conn.setConnected(true)
+""", note="a failed dial leaves Connected() true"),
+    M("c06-register-async", ["C06"], CONN, """	if err == nil {
+		conn.dispatch(&Line{Cmd: REGISTER, Time: time.Now()})
+	}""", """	if err == nil {
+		go conn.dispatch(&Line{Cmd: REGISTER, Time: time.Now()})
+	}""", note="REGISTER not finished when Connect returns"),
+    M("c06-disconnected-only-for-current-gen", ["C06"], CONN, """	conn.mu.Unlock()
+	// Dispatch after closing connection but before reinit
+	// so event handlers can still access state information.
+	conn.dispatch(&Line{Cmd: DISCONNECTED, Time: time.Now()})""", """	conn.mu.Unlock()
+	// Dispatch after closing connection but before reinit
+	// so event handlers can still access state information.
+	if err == nil {
+		conn.dispatch(&Line{Cmd: DISCONNECTED, Time: time.Now()})
+	}""", expect="control", note="the scripted socket's Close never fails, so this is invisible here (a real socket may fail)"),
+    # ---- C07
+    M("c07-drain-once", ["C07"], CONN, """	for exited := false; !exited; {
+		select {
+		case <-conn.in:
+		case <-conn.out:
+		case <-done:
+			exited = true
+		}
+	}""", """	conn.drainIn()
+	conn.drainOut()
+	<-done"""),
+    M("c07-no-generation-check", ["C07"], CONN, "	if !conn.connected || gen != conn.generation {", "	if !conn.connected {"),
+    M("c07-ping-ignores-ctx", ["C07"], CONN, """		case <-ctx.Done():
+			// control channel closed, bail out
+			tick.Stop()
+			return""", """		case <-ctx.Done():
+			// control channel closed, bail out
+			if conn.Connected() {
+				continue
+			}
+			tick.Stop()
+			return""", expect="control", note="Connected() is already false when the context is cancelled by Close"),
+    M("c07-initialise-keeps-in-queue", ["C07"], CONN, "	conn.in = make(chan *Line, 32)\n", "	if conn.in == nil {\n		conn.in = make(chan *Line, 32)\n	}\n", note="stale lines of the previous connection are delivered to the next"),
+    M("c07-initialise-no-wipe", ["C07"], CONN, """	if conn.st != nil {
+		conn.st.Wipe()
+	}
+}""", """}"""),
+    M("c07-ping-leak", ["C07"], CONN, """		if conn.cfg.PingFreq > 0 {
+			conn.wg.Add(1)
+			go conn.ping(ctx)
+		}""", """		if conn.cfg.PingFreq > 0 {
+			conn.wg.Add(1)
+			go conn.ping(context.Background())
+			conn.wg.Done()
+		}""", note="ping goroutine outlives the connection"),
+    M("c07-register-uses-config-nick", ["C07"], H, "	conn.Nick(conn.cfg.Me.Nick)\n	conn.User", "	conn.Nick(conn.Me().Nick)\n	conn.User", expect="control"),
+]
